@@ -222,11 +222,20 @@ pub trait Property {
         J::Null
     }
 
-    fn run_case(&mut self, c: &CaseRef) -> Outcome {
+    /// A case may stand for a batch of sub-cases (e.g. many strings handed to one
+    /// shell process); each sub-case is one Outcome.
+    fn run_tape_batch(&mut self, tape: &[u32]) -> Vec<Outcome> {
+        vec![self.run_tape(tape)]
+    }
+    fn run_fixed_batch(&mut self, index: u64) -> Vec<Outcome> {
+        vec![self.run_fixed(index)]
+    }
+
+    fn run_case(&mut self, c: &CaseRef) -> Vec<Outcome> {
         match c {
-            CaseRef::Tape(t) => self.run_tape(t),
-            CaseRef::Fixed(i) => self.run_fixed(*i),
-            CaseRef::Text(s) => self.run_text(s),
+            CaseRef::Tape(t) => self.run_tape_batch(t),
+            CaseRef::Fixed(i) => self.run_fixed_batch(*i),
+            CaseRef::Text(s) => vec![self.run_text(s)],
         }
     }
 }
@@ -305,8 +314,36 @@ pub fn install_panic_hook() {
             })
             .unwrap_or_else(|| "<unknown>".to_string());
         if IN_CATCH.with(|c| c.get()) == 0 {
-            eprintln!("harness panic at {}: {}", loc, info);
+            note(&format!("harness panic at {}: {}", loc, info));
         }
         LAST_PANIC.with(|p| *p.borrow_mut() = Some(loc));
     }));
+}
+
+// ------------------------------------------------------------------ stderr
+// ucglib prints diagnostics ("Skipping List...", TRACE lines) straight to the
+// process's stderr.  The harness keeps the real stderr on a private descriptor
+// for its own messages and points fd 2 at /dev/null.
+static REAL_STDERR: std::sync::atomic::AtomicI32 = std::sync::atomic::AtomicI32::new(2);
+
+pub fn silence_library_stderr() {
+    unsafe {
+        let saved = libc::dup(2);
+        if saved >= 0 {
+            let devnull = libc::open(b"/dev/null\0".as_ptr() as *const libc::c_char, libc::O_WRONLY);
+            if devnull >= 0 {
+                libc::dup2(devnull, 2);
+                libc::close(devnull);
+                REAL_STDERR.store(saved, std::sync::atomic::Ordering::SeqCst);
+            }
+        }
+    }
+}
+
+pub fn note(msg: &str) {
+    let fd = REAL_STDERR.load(std::sync::atomic::Ordering::SeqCst);
+    let line = format!("{}\n", msg);
+    unsafe {
+        libc::write(fd, line.as_ptr() as *const libc::c_void, line.len());
+    }
 }
